@@ -117,7 +117,7 @@ Theorem C06_compile_scope_correct_stage1a : forall cf p funs fuel st en,
   forallb stmt1 p = true -> compile_scope cf p = Some funs ->
   exec_list fuel p [] true s_empty = (st, en, CNorm) ->
   exists n, forall k, Gen.run_funs bk_m cf (n + k) funs = eval_cells_fuel fuel p.
-Proof. exact compile_scope_correct_stage1a. Qed.
+Proof. exact compile_scope_correct_stage1a_from_stage1. Qed.   (* corollary of stage 1 (general) below *)
 
 (* --- compile_scope_correct, stage 1: EVERY program of blocks (any nesting) + closures over block locals, one
        function level (fragment stmt3 of ScopeDefs2.v: script level var / assignment / print / expression
@@ -128,8 +128,20 @@ Theorem C06_compile_scope_correct_stage1 : forall cf p funs fuel st en,
   forallb stmt3 p = true -> compile_scope cf p = Some funs ->
   exec_list fuel p [] true s_empty = (st, en, CNorm) ->
   exists n, forall k, Gen.run_funs bk_m cf (n + k) funs = eval_cells_fuel fuel p.
-Proof. exact compile_scope_correct_stage1. Qed.
+Proof. exact compile_scope_correct_stage1. Qed.   (* corollary of stage 1 (general) below *)
 
+(* --- compile_scope_correct, stage 1 in its general form (one function level; fragment `stmt4 true` of
+       ScopeDefs2.v): closures and `fn` with parameters, called with arbitrary fragment expressions as arguments;
+       `var` declarations and nested blocks inside closure bodies (body locals, scope-end Pops inside a call
+       frame); self reference (`fn f` calling / capturing itself, as a captured block local or as a global;
+       `var x = || .. x ..` at script level).  Not yet: function definitions inside bodies (stage 2). --- *)
+Theorem C06_compile_scope_correct_stage1g : forall cf p funs fuel st en,
+  forallb (stmt4 true) p = true -> compile_scope cf p = Some funs ->
+  exec_list fuel p [] true s_empty = (st, en, CNorm) ->
+  exists n, forall k, Gen.run_funs bk_m cf (n + k) funs = eval_cells_fuel fuel p.
+Proof. exact compile_scope_correct_stage1g. Qed.
+
+Print Assumptions C06_compile_scope_correct_stage1g.
 Print Assumptions C06_compile_scope_correct_stage1.
 Print Assumptions C06_backend_swap.
 Print Assumptions C06_compile_scope_correct_stage1a.
